@@ -108,11 +108,12 @@ func (m *Model) ruleDONE(r *Results) {
 		r.undecided(rule, "feed loop", "-", "no function pulls from the queue in a loop and calls a callback")
 		return
 	}
-	name := m.declName(fn)
+	root, loopEntry := m.feedRoot()
+	name := m.declName(root)
 	// (a) deferred close of the done channel, guarded only by "non-nil", before the loop
 	var deferClose ssa.CallInstruction
 	var otherCloses []ssa.CallInstruction
-	m.eachCall(fn, func(c ssa.CallInstruction) {
+	m.eachCall(root, func(c ssa.CallInstruction) {
 		if !isBuiltinCall(c, "close") {
 			return
 		}
@@ -127,7 +128,7 @@ func (m *Model) ruleDONE(r *Results) {
 	})
 	switch {
 	case deferClose == nil:
-		pos := m.pos(fn.Pos())
+		pos := m.pos(root.Pos())
 		if len(otherCloses) > 0 {
 			pos = m.instrPos(otherCloses[0])
 		}
@@ -135,7 +136,7 @@ func (m *Model) ruleDONE(r *Results) {
 	case len(otherCloses) > 0:
 		r.bad(rule, name+" / done channel closed by defer", m.instrPos(otherCloses[0]), "the done channel is closed a second time outside the defer")
 	default:
-		conds := controllingConds(fn, deferClose.Block())
+		conds := controllingConds(root, deferClose.Block())
 		okGuard := len(conds) == 1
 		if okGuard {
 			cd := condOf(conds[0].If)
@@ -150,12 +151,12 @@ func (m *Model) ruleDONE(r *Results) {
 				c.cutEdge(ct.If.Block(), eq)
 			}
 		}
-		beforeLoop := !entryReach(fn, c)[pull.Block().Index]
+		beforeLoop := !entryReach(root, c)[loopEntry.Block().Index]
 		r.check(okGuard && beforeLoop, rule, name+" / done channel closed by defer", m.instrPos(deferClose), "a deferred close, guarded only by 'channel non-nil', is registered on every path before the loop", "the deferred close of the done channel is conditional on more than 'channel non-nil', or is not registered on every path into the loop")
 	}
 	// (b) terminator goroutine: started whenever a terminator is given
 	var goTerm ssa.CallInstruction
-	m.eachCall(fn, func(c ssa.CallInstruction) {
+	m.eachCall(root, func(c ssa.CallInstruction) {
 		if _, isGo := c.(*ssa.Go); !isGo {
 			return
 		}
@@ -172,9 +173,9 @@ func (m *Model) ruleDONE(r *Results) {
 		}
 	})
 	if goTerm == nil {
-		r.bad(rule, name+" / terminator goroutine", m.pos(fn.Pos()), "the feed loop starts no goroutine that closes the queue when the terminator fires")
+		r.bad(rule, name+" / terminator goroutine", m.pos(root.Pos()), "the feed loop starts no goroutine that closes the queue when the terminator fires")
 	} else {
-		conds := controllingConds(fn, goTerm.Block())
+		conds := controllingConds(root, goTerm.Block())
 		ok := len(conds) == 1
 		if ok {
 			cd := condOf(conds[0].If)
@@ -185,7 +186,7 @@ func (m *Model) ruleDONE(r *Results) {
 			}
 			ok = isEq && (isNilConst(cd.X) || isNilConst(cd.Y)) && m.derivesFromField(other, "Terminator", 0, map[ssa.Value]bool{})
 		}
-		dominatesLoop := goTerm.Block().Dominates(pull.Block()) || func() bool {
+		dominatesLoop := goTerm.Block().Dominates(loopEntry.Block()) || func() bool {
 			c := newCut()
 			c.cutBlock(goTerm.Block())
 			for _, ct := range conds {
@@ -193,7 +194,7 @@ func (m *Model) ruleDONE(r *Results) {
 					c.cutEdge(ct.If.Block(), eq)
 				}
 			}
-			return !entryReach(fn, c)[pull.Block().Index]
+			return !entryReach(root, c)[loopEntry.Block().Index]
 		}()
 		r.check(ok && dominatesLoop, rule, name+" / terminator goroutine", m.instrPos(goTerm), "the terminator watcher is started whenever a terminator is given, before the loop", "the terminator watcher is not started for every feed that has a terminator (extra condition): closing the terminator of such a feed does not end it")
 	}
@@ -254,7 +255,7 @@ func (m *Model) ruleDONE(r *Results) {
 			}
 		}
 		m.eachCall(f, func(c ssa.CallInstruction) {
-			if f == fn || !isBuiltinCall(c, "close") {
+			if f == fn || f == root || !isBuiltinCall(c, "close") {
 				return
 			}
 			closesDone := m.derivesFromField(c.Common().Args[0], "DoneChan", 0, map[ssa.Value]bool{})
@@ -769,7 +770,16 @@ func (m *Model) ruleVIEW(r *Results) {
 		okMark := false
 		if e, ok := w.Update["lastcas"]; ok {
 			if b, ok := upd.bindingFor(e); ok {
-				rv, _ := m.resolve(b.V, b.Fr)
+				bfr := b.Fr
+				if upd.Fn != updFn {
+					// the statement sits in a helper of the update closure: bind its parameters at the call
+					m.eachCall(updFn, func(c ssa.CallInstruction) {
+						if c.Common().StaticCallee() == upd.Fn {
+							bfr = m.closureFrame(updFn).inline(c, upd.Fn)
+						}
+					})
+				}
+				rv, _ := m.resolve(b.V, bfr)
 				if ex, ok := rv.(*ssa.Extract); ok {
 					if call, ok := ex.Tuple.(*ssa.Call); ok {
 						callee := call.Common().StaticCallee()
@@ -1416,16 +1426,44 @@ func (m *Model) derivesWithParity(v ssa.Value, fieldName string, depth int, seen
 		if x.Op == token.MUL {
 			if cell, ok := x.X.(*ssa.Alloc); ok {
 				var vals []ssa.Value
-				for _, ref := range *cell.Referrers() {
-					if st, ok := ref.(*ssa.Store); ok && st.Addr == cell {
-						vals = append(vals, st.Val)
-					}
+				for _, st := range cellStores(cell) {
+					vals = append(vals, st.Val)
 				}
 				return merge(vals)
 			}
 		}
 	}
 	return false, false
+}
+
+// cellStores: every store to a local cell, including those made by closures that capture it.
+func cellStores(cell *ssa.Alloc) []*ssa.Store {
+	var out []*ssa.Store
+	seen := map[ssa.Value]bool{}
+	var visit func(v ssa.Value)
+	visit = func(v ssa.Value) {
+		if seen[v] || v.Referrers() == nil {
+			return
+		}
+		seen[v] = true
+		for _, ref := range *v.Referrers() {
+			switch x := ref.(type) {
+			case *ssa.Store:
+				if x.Addr == v {
+					out = append(out, x)
+				}
+			case *ssa.MakeClosure:
+				fn := x.Fn.(*ssa.Function)
+				for i, b := range x.Bindings {
+					if b == v && i < len(fn.FreeVars) {
+						visit(fn.FreeVars[i])
+					}
+				}
+			}
+		}
+	}
+	visit(cell)
+	return out
 }
 
 // sameMarkThroughHelpers: both statements bind the lastCas field of the view object held in the
@@ -1614,3 +1652,46 @@ func (m *Model) ddocUnchangedShortcut(r *Results, rule string, K *ssa.Function, 
 }
 
 func derefType(v *types.Var) types.Type { return v.Type() }
+
+// feedRoot: the function that runs on the feed's own goroutine (the target of the `go` statement)
+// and, in it, the instruction at which the delivery loop starts: the pull itself when the loop
+// is written in that function, otherwise the call that leads to the loop function.
+func (m *Model) feedRoot() (*ssa.Function, ssa.Instruction) {
+	fn, pull, _ := m.feedLoopFn()
+	if fn == nil {
+		return nil, nil
+	}
+	isGoTarget := func(f *ssa.Function) bool {
+		for _, g := range m.Funcs {
+			found := false
+			m.eachCall(g, func(c ssa.CallInstruction) {
+				if _, isGo := c.(*ssa.Go); !isGo {
+					return
+				}
+				if c.Common().StaticCallee() == f {
+					found = true
+				}
+				for _, t := range m.funcTargets(c.Common().Value) {
+					if t == f {
+						found = true
+					}
+				}
+			})
+			if found {
+				return true
+			}
+		}
+		return false
+	}
+	cur := fn
+	var entry ssa.Instruction = pull
+	for depth := 0; depth < 3 && !isGoTarget(cur); depth++ {
+		callers := m.staticCallersOf(cur)
+		if len(callers) != 1 {
+			break
+		}
+		entry = callers[0]
+		cur = callers[0].Parent()
+	}
+	return cur, entry
+}
